@@ -28,8 +28,8 @@ func src(fset *token.FileSet, n ast.Node) string {
 // poolFacts reads the tree under check (go/ast) for the discipline the pooled
 // chains rest on (Model/Chain.lean, `Pools`):
 //   - pool_unpaired: functions (middleware, server, non-test) in which the receivers
-//     of x.NewChain() and y.PutChain(ch) differ — a chain must go back to the
-//     pipeline it was drawn from;
+//     of x.NewChain() and y.PutChain(ch) differ, or that hold more PutChain than
+//     NewChain call sites — a chain goes back once, to the pipeline it was drawn from;
 //   - pool_foreign_access: `chainPool` reached through anything but the method's
 //     own receiver in middleware/pipeline.go — a pipeline touches only its own pool;
 //   - pool_new_binds_own: the pool's constructor builds chains over the pipeline's
@@ -62,6 +62,7 @@ func poolFacts(out map[string]any) {
 					recvName = fd.Recv.List[0].Names[0].Name
 				}
 				news, puts := map[string]bool{}, map[string]bool{}
+				nNew, nPut := 0, 0
 				ast.Inspect(fd.Body, func(x ast.Node) bool {
 					switch v := x.(type) {
 					case *ast.CallExpr:
@@ -71,9 +72,11 @@ func poolFacts(out map[string]any) {
 							}
 							if s.Sel.Name == "NewChain" && len(v.Args) == 0 {
 								news[src(fset, s.X)] = true
+								nNew++
 							}
 							if s.Sel.Name == "PutChain" && len(v.Args) == 1 {
 								puts[src(fset, s.X)] = true
+								nPut++
 							}
 						}
 					case *ast.SelectorExpr:
@@ -92,8 +95,10 @@ func poolFacts(out map[string]any) {
 							same = false
 						}
 					}
-					// a function that only draws (long-lived chain) is not a pairing breach
-					if len(puts) > 0 && !same {
+					// a function that only draws (long-lived chain) is not a pairing breach;
+					// one that returns more often than it draws puts ONE chain into the pool
+					// twice, and two later requests then share it
+					if len(puts) > 0 && (!same || nPut > nNew) {
 						unpaired = append(unpaired, dir+"/"+n+":"+fd.Name.Name)
 					}
 				}
